@@ -111,21 +111,32 @@ def predict(cases, rundir, label, chunk=60):
     return out, stats
 
 
-def bundle_source(cases):
-    """one Go main package containing all cases"""
+def bundle_sources(cases):
+    """the Go module of a bundle: {relative path: source}. Cases generated with a package split put the functions marked
+    `lib` into package gmb/lib (exported names); main imports it."""
     funcs, structs, embedded, ifaces = [], {}, {}, {}
     for cid, case in cases:
         funcs += case["funcs"]
         structs.update(case["structs"])
         embedded.update(case["embedded"])
         ifaces.update(case["ifaces"])
-    prog = {"funcs": funcs, "structs": structs, "embedded": embedded, "ifaces": ifaces, "methods": {}}
-    src = G.render(prog, imports=("os", "runtime", "sync"))
+    lib_names = {f["name"] for f in funcs if f.get("lib")}
+    prog = {"funcs": funcs, "structs": structs, "embedded": embedded, "ifaces": ifaces, "methods": {}, "lib_names": lib_names}
+    files = {}
+    main_imports = ("os", "runtime", "sync") + (("gmb/lib",) if lib_names else ())
+    src = G.render(prog, imports=main_imports, only_lib=False if lib_names else None)
     src += "\nvar _ = os.Args\n"
     src += "var cases__ = []func(){%s}\n" % ", ".join(case["entry"] for _, case in cases)
     src += "var ids__ = []int{%s}\n" % ", ".join(str(cid) for cid, _ in cases)
     src += RUNNER
-    return src
+    files["main.go"] = src
+    if lib_names:
+        files["lib/lib.go"] = G.render(prog, pkg="lib", imports=("runtime", "sync"), only_lib=True)
+    return files
+
+
+def bundle_source(cases):
+    return bundle_sources(cases)["main.go"]
 
 
 def parse_output(text):
@@ -172,10 +183,11 @@ def run_bundle(exe, ids, timeout=120):
     return results, died
 
 
-def run_cases(chk, prop, profile, ncases, per_bundle, configs, sd, label):
-    """full pipeline for one batch; returns number of cases judged"""
+def run_cases(chk, prop, profile, ncases, per_bundle, configs, sd, label, split_every=0):
+    """full pipeline for one batch; returns number of cases judged.
+    split_every=k: every k-th case divides its functions between package main and package lib"""
     rd = chk.rd.path
-    cases = [(i, gogen.gen_case(sd, i, profile)) for i in range(ncases)]
+    cases = [(i, gogen.gen_case(sd, i, profile, split=bool(split_every) and i % split_every == 0)) for i in range(ncases)]
     fixed = gogen.fixed_cases(profile)
     fixed_name = {cid: name for cid, name, _ in fixed}
     cases += [(cid, c) for cid, name, c in fixed]
@@ -196,7 +208,7 @@ def run_cases(chk, prop, profile, ncases, per_bundle, configs, sd, label):
     def do_bundle(bi):
         b = bundles[bi]
         d = os.path.join(rd, "%s-b%d" % (label, bi))
-        C.write_module(d, {"main.go": bundle_source(b)}, modname="gmb")
+        C.write_module(d, bundle_sources(b), modname="gmb")
         ref = os.path.join(d, "ref.exe")
         ok, out = C.go_build(d, ref)
         if not ok:
